@@ -248,19 +248,76 @@ def loop_flag(F, rep):
                      "`%s` outside a loop of the same function is rejected" % v.lower(), line_of(arms[0][0]))
 
 
+def nodes_pat(p):
+    """all sub-patterns of a pattern"""
+    out = [p]
+    if isinstance(p, dict):
+        for k in ("pats",):
+            for x in p.get(k, []) or []:
+                out += nodes_pat(x)
+        for f in p.get("fields", []) or []:
+            out += nodes_pat(f["pat"])
+        if isinstance(p.get("pat"), dict):
+            out += nodes_pat(p["pat"])
+        if isinstance(p.get("sub"), dict):
+            out += nodes_pat(p["sub"])
+    return out
+
+
+def _file_is_main(e):
+    """does the expression contain `<..>.file_id == 0`"""
+    for b in nodes(e, "Binary"):
+        if b.get("op") == "Eq":
+            l, r = peel(b["l"]), peel(b["r"])
+            for x, y in ((l, r), (r, l)):
+                if x.get("k") == "Field" and x["name"] == "file_id" and y.get("k") == "Lit" and y.get("v") == 0:
+                    return True
+    return False
+
+
 def start_rules(F, rep):
     fres = F.fn(NR + "resolve")
     rep.analysed(fres)
-    ok = False
+    ok = False        # some test of lookup_global(0, "start") whose failure is an error
+    var_only = False  # ... that only a *variable* passes (a namespace or alias named start does not)
+    own_file = False  # ... defined in the main file itself
+    def _is_start_lookup(e):
+        e = peel(e)
+        if callee(e) == NR + "Resolver::lookup_global":
+            a = [peel(x) for x in e["args"]]
+            return a[0].get("v") == 0 and a[1].get("v") == "start"
+        return False
     for i in nodes(fn_body(fres), "If"):
         c = peel(i["c"])
-        if c.get("k") == "MethodCall" and c["m"] == "is_none":
-            lg = peel(c["recv"])
-            if callee(lg) == NR + "Resolver::lookup_global":
-                a = [peel(x) for x in lg["args"]]
-                if a[0].get("v") == 0 and a[1].get("v") == "start" and tc.is_err_value(i["t"]):
-                    ok = True
+        if c.get("k") == "MethodCall" and c["m"] == "is_none" and _is_start_lookup(c["recv"]) and tc.is_err_value(i["t"]):
+            ok = True
+    for m in nodes(fn_body(fres), "Match"):
+        if not _is_start_lookup(m["scrut"]):
+            continue
+        passing = [a for a in m["arms"] if not tc.is_err_value(a["body"])]
+        failing = [a for a in m["arms"] if tc.is_err_value(a["body"])]
+        if failing and passing:
+            ok = True
+            var_only = all(any((pat_variant(x) or "").endswith("name_resolution::Name::Name") for x in nodes_pat(a["pat"])) for a in passing)
+            own_file = all(a.get("guard") is not None and _file_is_main(a["guard"]) for a in passing)
     rep.ob("START", "resolve|no-start=>Err", ok, "a main module (namespace 0) without a global `start` is an error", fres["sp"])
+    rep.ob("START", "resolve|start-is-a-variable", var_only,
+           "only a variable satisfies the check: `use lib as start` or a file named start.sy does not provide an entry point", fres["sp"])
+    rep.ob("START", "resolve|start-defined-in-main", own_file,
+           "the variable has to be defined in the main file (definition.file_id == 0): an imported `start` is not the entry point", fres["sp"])
+    # the checker and the lowering pick that same variable: a global named start defined in file 0
+    for path_, what in ((TCM + "solve", "typechecker::solve"), ("sylt_compiler::intermediate::compile", "intermediate::compile")):
+        f2 = F.fn(path_)
+        okp = False
+        for c in nodes(fn_body(f2), "MethodCall"):
+            if c["m"] == "find":
+                for cl in [a for a in c["args"] if a.get("k") == "Closure"]:
+                    okp = _file_is_main(cl["body"]) and any(x.get("name") == "is_global" for x in nodes(cl["body"], "Field")) \
+                        and any(x.get("k") == "Lit" and x.get("v") == "start" for x in nodes(cl["body"]))
+        rep.ob("START", "%s|start-defined-in-main" % what, okp,
+               "%s looks for a global named `start` that is defined in the main file - the variable name resolution checked, "
+               "not the first `start` of any imported module (which one that is depends on the order of the import lines)" % what,
+               f2["sp"])
     fsolve = F.fn(TC + "solve")
     rep.analysed(fsolve)
     fl = Flow(fsolve, fn_body(fsolve))
